@@ -214,3 +214,281 @@ Proof.
   cbn [app] in Ek. destruct rest as [|ct [|? ?]]; try discriminate. inversion Ek; subst.
   exists ct', r. split; [exact Hg|]. exact (Hleft _ _ _ _ _ Hg).
 Qed.
+
+(* ================= the per-source index: every key has its queue entry and its record ================= *)
+Definition ix_ok (R : KMap Redel) (Q : KMap (list Redel)) (k : Key) (_ : unit) : Prop :=
+  exists src ct dn dst del l e, k = [src; ct; dn; dst; del] /\ kget Q [ct] = Some l /\ In e l /\
+    r_src e = src /\ r_del e = del /\ r_dst e = dst /\ r_denom e = dn /\
+    exists r, kget R [del; dn; dst; ct] = Some r.
+Definition XI (s : State) : Prop :=
+  ksorted (redels s) /\ ksorted (redelidx s) /\ ksorted (redelq s) /\ kall (ix_ok (redels s) (redelq s)) (redelidx s).
+Lemma XI_f : forall s s', rqs_proj s' = rqs_proj s -> XI s -> XI s'.
+Proof. unfold rqs_proj, XI; intros s s' E H. inversion E as [[E1 E2 E3]]. rewrite E1, E2, E3. exact H. Qed.
+
+Lemma xi_add_redelegation del src dst dn amt ct : inv XI (add_redelegation del src dst dn amt ct).
+Proof.
+  unfold add_redelegation, queue_redelegation. intros s (Hr & Hi & Hq & Hall). unfold bind, modify. cbn [ret].
+  unfold XI. cbn [redels redelq redelidx set_redels set_redelidx set_redelq].
+  set (old := match kget (redelq s) [ct] with Some l => l | None => [] end).
+  set (rec := match kget (redels s) [del; dn; dst; ct] with None => mkRedel del src dst dn amt | Some r => set_r_amount (r_amount r + amt) r end).
+  split; [apply ksorted_kset; exact Hr|]. split; [apply ksorted_kset; exact Hi|]. split; [apply ksorted_kset; exact Hq|].
+  assert (Hold : forall k u, ix_ok (redels s) (redelq s) k u ->
+            ix_ok (kset (redels s) [del; dn; dst; ct] rec) (kset (redelq s) [ct] (old ++ [mkRedel del src dst dn amt])) k u).
+  { intros k u (src' & ct' & dn' & dst' & del' & l & e & -> & Hg & Hin & H1 & H2 & H3 & H4 & r & Hrec).
+    exists src', ct', dn', dst', del'.
+    destruct (Z.eq_dec ct' ct) as [->|Hne].
+    - exists (old ++ [mkRedel del src dst dn amt]), e. rewrite kget_kset_same. repeat split; auto.
+      + apply in_or_app. left. unfold old. rewrite Hg. exact Hin.
+      + destruct (list_eq_dec Z.eq_dec [del'; dn'; dst'; ct] [del; dn; dst; ct]) as [E|Hn].
+        * rewrite E. rewrite kget_kset_same. eauto.
+        * rewrite kget_kset_other by assumption. eauto.
+    - exists l, e. rewrite kget_kset_other; [|exact Hq|congruence]. repeat split; auto.
+      rewrite kget_kset_other; [eauto | exact Hr | congruence]. }
+  apply kall_kset.
+  - unfold kall in *. eapply Forall_impl; [|exact Hall]. intros [k0 u0]; cbn. apply Hold.
+  - exists src, ct, dn, dst, del, (old ++ [mkRedel del src dst dn amt]), (mkRedel del src dst dn amt).
+    rewrite !kget_kset_same. repeat split; auto; [apply in_or_app; right; left; reflexivity | eauto].
+Qed.
+
+Definition ix_ok1 (ct0 : Z) (R : KMap Redel) (Q : KMap (list Redel)) (k : Key) (_ : unit) : Prop :=
+  exists src ct dn dst del l e, k = [src; ct; dn; dst; del] /\ kget Q [ct] = Some l /\ In e l /\
+    r_src e = src /\ r_del e = del /\ r_dst e = dst /\ r_denom e = dn /\
+    (ct <> ct0 -> exists r, kget R [del; dn; dst; ct] = Some r).
+Definition Z1 (ct0 : Z) (Q : KMap (list Redel)) (s : State) : Prop :=
+  ksorted (redels s) /\ ksorted (redelidx s) /\ redelq s = Q /\ kall (ix_ok1 ct0 (redels s) Q) (redelidx s).
+Lemma z1_del ct0 Q r : hoare (Z1 ct0 Q) (del_entry ct0 r) (fun _ => Z1 ct0 Q) (fun _ => False).
+Proof.
+  apply hoare_modify. intros s (Hr & Hi & HQ & Hall). unfold Z1. cbn [redels redelq redelidx set_redels set_redelidx].
+  split; [apply ksorted_kdel; exact Hr|]. split; [apply ksorted_kdel; exact Hi|]. split; [exact HQ|].
+  apply kall_kdel. unfold kall in *. eapply Forall_impl; [|exact Hall]. intros [k u]; cbn [fst snd].
+  intros (src & ct & dn & dst & del & l & e & -> & Hg & Hin & H1 & H2 & H3 & H4 & Hrec).
+  exists src, ct, dn, dst, del, l, e. repeat split; auto. intros Hne. destruct (Hrec Hne) as [r0 Hr0]. exists r0.
+  rewrite kget_kdel_other; [exact Hr0 | exact Hr | congruence].
+Qed.
+
+Lemma xi_body ct l :
+  hoare (fun s => XI s /\ kget (redelq s) [ct] = Some l) (redel_body ([ct], l)) (fun _ => XI) (fun _ => False).
+Proof.
+  intros s [(Hr & Hi & Hq & Hall) Hg]. rewrite redel_body_unfold. unfold bind at 1.
+  assert (Hz : Z1 ct (redelq s) s).
+  { split; [exact Hr|]. split; [exact Hi|]. split; [reflexivity|]. unfold kall in *. eapply Forall_impl; [|exact Hall].
+    intros [k u]; cbn [fst snd]. intros (src & ct' & dn & dst & del & l0 & e & -> & Hg0 & Hin & H1 & H2 & H3 & H4 & Hrec).
+    exists src, ct', dn, dst, del, l0, e. repeat split; auto. }
+  pose proof (hoare_mfor _ _ (fun _ => False) l (del_entry ct) (z1_del ct (redelq s)) s Hz) as P1.
+  assert (P2 : forall r0, In r0 l -> match mfor l (del_entry ct) s with Ok _ s1 => RGone (rkey ct r0) (ikey ct r0) s1 | _ => False end).
+  { intros r0 Hin. exact (RedelCleanup.hits_entries ct r0 l Hin s (conj Hr Hi)). }
+  destruct (mfor l (del_entry ct) s) as [[] s1|e s1|e s1]; try contradiction.
+  destruct P1 as (Hr1 & Hi1 & Hq1 & Hall1). cbn [modify].
+  unfold XI. cbn [redels redelq redelidx set_redelq]. rewrite Hq1.
+  split; [exact Hr1|]. split; [exact Hi1|]. split; [apply ksorted_kdel; exact Hq|].
+  unfold kall in *. apply Forall_forall. intros [k u] Hin. cbn [fst snd]. rewrite Forall_forall in Hall1.
+  destruct (Hall1 _ Hin) as (src & ct' & dn & dst & del & l0 & e & Ek & Hg0 & Hin0 & H1 & H2 & H3 & H4 & Hrec). cbn [fst] in Ek. subst k.
+  destruct (Z.eq_dec ct' ct) as [->|Hne].
+  - rewrite Hg in Hg0. inversion Hg0; subst l0. exfalso.
+    pose proof (P2 e Hin0) as (_ & _ & Hgone). unfold ikey in Hgone. rewrite H1, H2, H3, H4 in Hgone.
+    pose proof (kget_in_sorted _ _ _ Hi1 Hin) as Hsome. rewrite Hgone in Hsome. discriminate.
+  - exists src, ct', dn, dst, del, l0, e. rewrite kget_kdel_other; [|exact Hq|congruence]. repeat split; auto.
+Qed.
+
+Definition OLX (rest : KMap (list Redel)) (s : State) : Prop :=
+  XI s /\ Forall (fun kv => kget (redelq s) (fst kv) = Some (snd kv)) rest.
+Lemma olx_loop : forall rest, NoDup (map fst rest) -> Forall (fun kv => exists ct, fst kv = [ct]) rest ->
+  hoare (OLX rest) (mfor rest redel_body) (fun _ => XI) (fun _ => False).
+Proof.
+  induction rest as [|[k l] rest IH]; intros Hnd Hshape; cbn [mfor]; [apply hoare_ret; intros s H; unfold OLX in H; tauto|].
+  inversion Hnd as [|? ? Hnot Hnd']; subst. inversion Hshape as [|? ? [ct Hct] Hshape']; subst. cbn [fst] in Hct. subst k.
+  eapply hoare_bind with (Q1 := fun _ => OLX rest); [|intros _; apply IH; assumption].
+  intros s HOL. unfold OLX in HOL. destruct HOL as (Hxi & Hall). inversion Hall as [|? ? Hk Hrest]; subst. cbn [fst snd] in Hk.
+  assert (B3' : match redel_body ([ct], l) s with Ok _ s' => redelq s' = kdel (redelq s) [ct] | _ => True end).
+  { rewrite redel_body_unfold. unfold bind at 1.
+    assert (F : hoare (RQis (redelq s)) (mfor l (del_entry ct)) (fun _ => RQis (redelq s)) (fun _ => False)).
+    { apply hoare_mfor. intros r. apply hoare_modify. intros s0 H0; exact H0. }
+    specialize (F s eq_refl). destruct (mfor l (del_entry ct) s) as [[] s1| |]; try exact I. cbn. unfold RQis in F. rewrite F. reflexivity. }
+  match goal with |- match ?m with _ => _ end =>
+    assert (B2 : match m with Ok _ s' => XI s' | _ => False end) by exact (xi_body ct l s (conj Hxi Hk));
+    assert (B3 : match m with Ok _ s' => redelq s' = kdel (redelq s) [ct] | _ => True end) by exact B3';
+    destruct m as [[] s'|e s'|e s']; try contradiction
+  end.
+  cbv beta. unfold OLX. split; [exact B2|].
+  apply Forall_forall. intros [k' l'] Hin. cbn [fst snd]. rewrite B3. rewrite Forall_forall in Hrest.
+  destruct Hxi as (_ & _ & Hq & _).
+  rewrite kget_kdel_other; [exact (Hrest _ Hin) | exact Hq|].
+  intros E. subst k'. apply Hnot. apply in_map_iff. exists ([ct], l'). split; [reflexivity | exact Hin].
+Qed.
+
+Lemma xi_complete_redelegations : inv XI complete_redelegations.
+Proof.
+  apply inv_of_hoare. rewrite complete_redelegations_unfold.
+  eapply hoare_bind with (Q1 := fun _ => XI); [apply hoare_gets; auto|]. intros t.
+  apply hoare_bind_gets_eq. intros s0 Hs0.
+  set (q := kfilter (fun k => match k with [ct] => ct <? t | _ => false end) (redelq s0)).
+  destruct Hs0 as (Hr & Hi & Hq & Hall).
+  assert (Hnd : NoDup (map fst q)).
+  { apply SlashQueue.ksorted_NoDup_keys. unfold q, kfilter. apply ksorted_filter. exact Hq. }
+  assert (Hshape : Forall (fun kv => exists ct, fst kv = [ct]) q).
+  { apply Forall_forall. intros kv Hin. unfold q, kfilter in Hin. apply filter_In in Hin. destruct Hin as [_ H].
+    destruct kv as [k l]; cbn [fst] in *. destruct k as [|ct [|? ?]]; try discriminate. eauto. }
+  assert (Hqq : Forall (fun kv => kget (redelq s0) (fst kv) = Some (snd kv)) q).
+  { apply Forall_forall. intros [k l] Hin. unfold q, kfilter in Hin. apply filter_In in Hin. destruct Hin as [Hin _].
+    cbn [fst snd]. apply kget_in_sorted; assumption. }
+  apply (hoare_pre _ _ (OLX q)); [intros s ->; unfold OLX, XI; auto|].
+  eapply hoare_post; [| |apply (olx_loop q Hnd Hshape)]; [intros ? s H; exact H | intros s []].
+Qed.
+
+Ltac xi_step :=
+  first
+    [ lazymatch goal with
+      | |- inv _ (add_redelegation _ _ _ _ _ _) => apply xi_add_redelegation
+      | |- inv _ complete_redelegations => apply xi_complete_redelegations
+      | |- inv _ (modify _) =>
+        apply inv_modify; let s := fresh "s" in let Hs := fresh "Hs" in
+        intros s Hs; apply (XI_f s); [reflexivity | exact Hs]
+      end
+    | inv_step
+    | lazymatch goal with |- inv _ ?m => let h := head_of m in unfold h end ].
+Ltac xi_auto := repeat xi_step.
+Lemma XI_end_blocker : inv XI end_blocker.                              Proof. xi_auto. Qed.
+Lemma XI_msg_delegate a b c d : inv XI (msg_delegate a b c d).          Proof. xi_auto. Qed.
+Lemma XI_msg_undelegate a b c d : inv XI (msg_undelegate a b c d).      Proof. xi_auto. Qed.
+Lemma XI_msg_redelegate a b c d e : inv XI (msg_redelegate a b c d e).  Proof. xi_auto. Qed.
+Lemma XI_msg_claim a b c : inv XI (msg_claim a b c).                    Proof. xi_auto. Qed.
+Lemma XI_msg_create m : inv XI (msg_create_alliance m).                 Proof. xi_auto. Qed.
+Lemma XI_msg_update m : inv XI (msg_update_alliance m).                 Proof. xi_auto. Qed.
+Lemma XI_msg_delete a b : inv XI (msg_delete_alliance a b).             Proof. xi_auto. Qed.
+Lemma XI_msg_params a b c d : inv XI (msg_update_params a b c d).       Proof. xi_auto. Qed.
+Lemma XI_hook_slash v f : inv XI (hook_slash v f).                      Proof. xi_auto. Qed.
+
+Theorem step_XI s o : XI s -> XI (fst (step s o)).
+Proof.
+  intros Hs. assert (W : forall (m : M unit), inv XI m -> XI (fst (clear_oracle (tx m s))) /\ XI (fst (clear_oracle (hook m s))) /\ XI (fst (clear_oracle (endblock m s)))).
+  { intros m Hm. specialize (Hm s Hs). unfold tx, hook, endblock, clear_oracle. destruct (m s) as [[] s'|e s'|e s']; cbn; (split; [|split]); first [exact Hm | exact Hs]. }
+  destruct o; cbn [step fst]; try exact Hs.
+  - apply (W _ XI_end_blocker).
+  - apply (W _ (XI_msg_delegate _ _ _ _)).
+  - apply (W _ (XI_msg_undelegate _ _ _ _)).
+  - apply (W _ (XI_msg_redelegate _ _ _ _ _)).
+  - apply (W _ (XI_msg_claim _ _ _)).
+  - apply (W _ (XI_msg_create _)).
+  - apply (W _ (XI_msg_update _)).
+  - apply (W _ (XI_msg_delete _ _)).
+  - apply (W _ (XI_msg_params _ _ _ _)).
+  - apply (W _ (XI_hook_slash _ _)).
+  - eapply XI_f; [|exact Hs]. unfold rqs_proj.
+    match goal with |- (redels (fold_left _ ?ss (fold_left _ ?bs s)), _, _) = _ => generalize bs, ss end.
+    intros bs ss. generalize s. induction bs as [|b bs IHb]; intros st; cbn [fold_left].
+    + induction ss as [|x ss IHs] in st |- *; cbn [fold_left]; [reflexivity|]. rewrite IHs. reflexivity.
+    + rewrite IHb. reflexivity.
+Qed.
+Theorem run_XI h : forall s, XI s -> XI (run s h).
+Proof. induction h as [|o h IH]; intros s Hs; cbn; [exact Hs | apply IH, step_XI, Hs]. Qed.
+Lemma XI_init : XI init_state.
+Proof. repeat split; constructor. Qed.
+
+(* every key of the per-source index has its record (and its entry in the time queue): the slash of pending
+   redelegations never meets a key without record *)
+Theorem every_index_key_has_its_record h src ct dn dst del : let s := run init_state h in
+  kget (redelidx s) [src; ct; dn; dst; del] = Some tt ->
+  (exists r, kget (redels s) [del; dn; dst; ct] = Some r) /\
+  (exists l e, kget (redelq s) [ct] = Some l /\ In e l /\ r_src e = src /\ r_del e = del /\ r_dst e = dst /\ r_denom e = dn).
+Proof.
+  intros s Hg. destruct (run_XI h init_state XI_init) as (_ & _ & _ & Hall). fold s in Hall.
+  destruct (kall_kget _ _ _ _ Hall Hg) as (src' & ct' & dn' & dst' & del' & l & e & Ek & Hq & Hin & H1 & H2 & H3 & H4 & r & Hrec).
+  inversion Ek; subst. split; [eauto|]. exists l, e. repeat split; auto.
+Qed.
+
+(* ================= C08: the callback never meets an index key without record ================= *)
+Definition hr (J : State -> Prop) {A} (m : M A) (P : Z -> Prop) : Prop :=
+  forall s, J s -> match m s with Ok _ s' => J s' | Err e _ => P e | Panic e _ => P e end.
+Lemma hr_of A (J : State -> Prop) (m : M A) P : inv J m -> raises P m -> hr J m P.
+Proof. intros Hi Hr s Hs. specialize (Hi s Hs). specialize (Hr s). destruct (m s); auto. Qed.
+Lemma hr_mfor_Forall A (J : State -> Prop) (Pe : Z -> Prop) (Pl : A -> Prop) (l : list A) (f : A -> M unit) :
+  Forall Pl l -> (forall x, Pl x -> hr J (f x) Pe) -> hr J (mfor l f) Pe.
+Proof.
+  intros Hl H. induction Hl as [|x l Hx Hl IH]; cbn [mfor]; [intros s Hs; exact Hs|].
+  intros s Hs. unfold bind. specialize (H x Hx s Hs). destruct (f x s) as [[] s1|e s1|e s1]; auto. apply IH. exact H.
+Qed.
+Lemma hr_bind A B (J : State -> Prop) Pe (m : M A) (k : A -> M B) : hr J m Pe -> (forall a, hr J (k a) Pe) -> hr J (bind m k) Pe.
+Proof. intros Hm Hk s Hs. unfold bind. specialize (Hm s Hs). destruct (m s) as [a s1|e s1|e s1]; auto. apply Hk. exact Hm. Qed.
+
+Definition NM (e : Z) : Prop := e <> E_MISSING_RECORD.
+Definition RI (R : KMap Redel) (s : State) : Prop := redels s = R.
+Lemma RI_f R : forall s s', redels s' = redels s -> RI R s -> RI R s'.
+Proof. unfold RI; intros; congruence. Qed.
+
+Lemma slash_redelegations_finds_its_records_at s v f : XI s ->
+  match slash_redelegations v f s with Err e _ => NM e | Panic e _ => NM e | Ok _ _ => True end.
+Proof.
+  intros (Hr & Hi & Hq & Hall).
+  unfold slash_redelegations. unfold bind at 1, gets at 1. unfold bind at 1, gets at 1.
+  set (idx := kfilter (kprefix [v]) (redelidx s)).
+  assert (Hidx : Forall (fun ku : Key * unit => exists src ct dn dst del r, fst ku = [src; ct; dn; dst; del] /\ kget (redels s) [del; dn; dst; ct] = Some r) idx).
+  { apply Forall_forall. intros [k u] Hin. unfold idx, kfilter in Hin. apply filter_In in Hin. destruct Hin as [Hin _].
+    unfold kall in Hall. rewrite Forall_forall in Hall.
+    destruct (Hall _ Hin) as (src & ct & dn & dst & del & l & e & Ek & _ & _ & _ & _ & _ & _ & r & Hrec). cbn [fst] in *. eauto 10. }
+  match goal with |- match mfor idx ?body s with _ => _ end =>
+    assert (H : hr (RI (redels s)) (mfor idx body) NM) end.
+  { apply (hr_mfor_Forall _ _ _ _ _ _ Hidx). intros [k u] (src & ct & dn & dst & del & r & Ek & Hrec). cbn [fst] in Ek. subst k. cbn [fst].
+    destruct (ct <? now s); [intros s1 H1; exact H1|].
+    intros s1 H1. unfold bind at 1, gets at 1. unfold RI in H1. rewrite H1, Hrec.
+    match goal with |- match ?m s1 with _ => _ end =>
+      assert (Hm : hr (RI (redels s)) m NM) end.
+    { apply hr_of; [inv_deep (RI_f (redels s)) | raises_deep ltac:(unfold NM; discriminate)]. }
+    exact (Hm s1 H1). }
+  specialize (H s eq_refl). destruct (mfor idx _ s); auto.
+Qed.
+Lemma slash_redelegations_finds_its_records h v f : let s := run init_state h in
+  match slash_redelegations v f s with Err e _ => NM e | Panic e _ => NM e | Ok _ _ => True end.
+Proof. intros s. apply slash_redelegations_finds_its_records_at. exact (run_XI h init_state XI_init). Qed.
+
+Lemma slash_undelegations_keys_are_well_formed_at s v f : CS2 s ->
+  match slash_undelegations v f s with Err e _ => NM e | Panic e _ => NM e | Ok _ _ => True end.
+Proof.
+  intros (_ & _ & Hall & _).
+  unfold slash_undelegations. unfold bind at 1, gets at 1. unfold bind at 1, gets at 1.
+  set (idx := kfilter (kprefix [v]) (undelidx s)).
+  assert (Hidx : Forall (fun ku : Key * unit => exists a b c d, fst ku = [a; b; c; d]) idx).
+  { apply Forall_forall. intros [k u] Hin. unfold idx, kfilter in Hin. apply filter_In in Hin. destruct Hin as [Hin _].
+    unfold kall in Hall. rewrite Forall_forall in Hall.
+    destruct (Hall _ Hin) as (v' & ct & dn & dl & l & e & Ek & _). cbn [fst] in *. eauto. }
+  match goal with |- match mfor idx ?body s with _ => _ end =>
+    assert (H : hr (fun _ => True) (mfor idx body) NM) end.
+  { apply (hr_mfor_Forall _ _ _ _ _ _ Hidx). intros [k u] (a & b & c & d & Ek). cbn [fst] in Ek. subst k. cbn [fst].
+    apply hr_of; [intros s1 _; destruct (_ s1); exact I | raises_deep ltac:(unfold NM; discriminate)]. }
+  specialize (H s I). destruct (mfor idx _ s); auto.
+Qed.
+Lemma slash_undelegations_keys_are_well_formed h v f : let s := run init_state h in
+  match slash_undelegations v f s with Err e _ => NM e | Panic e _ => NM e | Ok _ _ => True end.
+Proof. intros s. apply slash_undelegations_keys_are_well_formed_at. exact (proj2 (run_CS h init_state CS_init)). Qed.
+
+
+(* the whole callback: in a reachable state it never fails on a missing record or a malformed index key *)
+Definition JX (s : State) : Prop := XI s /\ CS2 s.
+Lemma jx_frame A (m : M A) : inv XI m -> inv CS2 m -> raises NM m -> hr JX m NM.
+Proof.
+  intros H1 H2 Hr s [Ha Hb]. specialize (H1 s Ha). specialize (H2 s Hb). specialize (Hr s).
+  destruct (m s); auto; split; assumption.
+Qed.
+Theorem slash_callback_never_misses_a_record h v f : let s := run init_state h in
+  match hook_slash v f s with Err e _ => e <> E_MISSING_RECORD | Panic e _ => e <> E_MISSING_RECORD | Ok _ _ => True end.
+Proof.
+  intros s.
+  assert (Hs : JX s) by (split; [exact (run_XI h init_state XI_init) | exact (proj2 (run_CS h init_state CS_init))]).
+  assert (H : hr JX (hook_slash v f) NM).
+  { unfold hook_slash, slash_validator.
+    apply hr_bind; [|intros _; apply jx_frame; [xi_auto | cs2_auto | raises_deep ltac:(unfold NM; discriminate)]].
+    destruct ((f <=? 0) || (ONE <? f)); [intros s0 _; cbn; unfold NM; discriminate|].
+    apply hr_bind; [apply jx_frame; [xi_auto | cs2_auto | raises_deep ltac:(unfold NM; discriminate)]|]. intros [sv vi].
+    apply hr_bind; [apply jx_frame; [xi_auto | cs2_auto | raises_deep ltac:(unfold NM; discriminate)]|]. intros vs'.
+    apply hr_bind; [apply jx_frame; [xi_auto | cs2_auto | raises_deep ltac:(unfold NM; discriminate)]|]. intros _.
+    apply hr_bind.
+    - intros s0 [Ha Hb]. pose proof (slash_redelegations_finds_its_records_at s0 v f Ha) as R.
+      pose proof (XI_hook_slash v f) as _. 
+      assert (I1 : inv XI (slash_redelegations v f)) by xi_auto.
+      assert (I2 : inv CS2 (slash_redelegations v f)) by cs2_auto.
+      specialize (I1 s0 Ha). specialize (I2 s0 Hb). destruct (slash_redelegations v f s0); auto. split; assumption.
+    - intros _ s0 [Ha Hb]. pose proof (slash_undelegations_keys_are_well_formed_at s0 v f Hb) as R.
+      assert (I1 : inv XI (slash_undelegations v f)) by xi_auto.
+      assert (I2 : inv CS2 (slash_undelegations v f)) by (apply cs2_slash_undelegations).
+      specialize (I1 s0 Ha). specialize (I2 s0 Hb). destruct (slash_undelegations v f s0); auto. split; assumption. }
+  specialize (H s Hs). unfold NM in H. destruct (hook_slash v f s); auto.
+Qed.
